@@ -11,9 +11,11 @@ from ..kernel import Property, RunResult, Violation, stable_hash
 from ..models.multikey import MultiKeyModel, StrategyModel
 from .util import drop_candidates
 
-KEYS = [0, 1, 2, 3, 4, "a", "b", "c", "d", "e", 1.0, True]
+KEYS = [0, 1, 2, 3, 4, "a", "b", "c", "d", "e", 1.0, True] + \
+  list(range(5, 25))            # the tail is used by "wide" runs only
+NKEYS_NORMAL = 12
 VALS = [0, 1, 2, 3, "x", "y", 1.0, True, (1, 2), (1, 2.0), None, "x"]
-NAMES = ["a", "b", "c", "d", "e", "f_g", "h", "pop", "copy"]
+NAMES = ["a", "b", "c", "d", "e", "f_g", "h", "pop", "copy", "_inc", "__x"]
 # "pop" / "copy" collide with dict methods: the instance attribute must still
 # be the strategy.  (Names the harness itself calls - keys, key2keys,
 # value2keys, strategy, default - are not used as strategy names.)
@@ -110,13 +112,19 @@ class C15(Property):
     n = W.span("len", 1, 40 if W.chance("long", 1, 4) else 12)
     ops = []
     small = W.chance("small-universe", 1, 2)
+    wide = False
     if kind == "mkd":
-      nk = 4 if small else len(KEYS)
+      nk = 4 if small else NKEYS_NORMAL
       nv = 3 if small else len(VALS)
+      if not small and W.chance("wide", 1, 10):
+        # many keys, few values: groups with 15-25 keys
+        wide, nk, nv, n = True, len(KEYS), 2, max(n, 30)
       for _ in range(n):
         op = W.weighted("op", [(10, "set"), (6, "sett"), (6, "del"),
                                (2, "gett"), (2, "rebuild"), (1, "copycon"),
-                               (2, "swap")])
+                               (2, "swap"), (1, "delt")])
+        if wide and op in ("del", "rebuild", "swap", "copycon", "delt"):
+          op = "set"
         if op == "set":
           ops.append(["set", W.choose("k", nk), W.choose("v", nv)])
         elif op == "sett":
@@ -125,9 +133,9 @@ class C15(Property):
                       W.choose("v", nv)])
         elif op == "del":
           ops.append(["del", W.choose("k", nk)])
-        elif op == "gett":
-          m = W.span("tl", 1, 3)
-          ops.append(["gett", [W.choose("k", nk) for _ in range(m)]])
+        elif op in ("gett", "delt"):
+          m = W.span("tl", 0 if op == "delt" else 1, 3)
+          ops.append([op, [W.choose("k", nk) for _ in range(m)]])
         elif op in ("copycon", "swap"):
           ops.append([op])
         else:
@@ -161,11 +169,12 @@ class C15(Property):
           ops.append([op, W.choose("n", nn)])
         else:
           ops.append(["call", W.choose("a", 3)])
-    return {"kind": kind, "ops": ops}
+    return {"kind": kind, "ops": ops, "wide": wide}
 
   def shrink_candidates(self, workload):
     for ops in drop_candidates(workload["ops"]):
-      yield {"kind": workload["kind"], "ops": ops}
+      yield {"kind": workload["kind"], "ops": ops,
+             "wide": workload.get("wide", False)}
 
   def corpus(self):
     return [
@@ -197,6 +206,7 @@ class C15(Property):
     probes = set()
     mutating = 0
     try:
+      self.nobs = len(KEYS) if workload.get("wide") else NKEYS_NORMAL
       if workload["kind"] == "mkd":
         mutating = self._run_mkd(workload["ops"], events, probes, res)
       else:
@@ -230,6 +240,8 @@ class C15(Property):
           out.append("del d[%r]" % (KEYS[op[1]],))
         elif op[0] == "gett":
           out.append("d[%r]" % (tuple(KEYS[k] for k in op[1]),))
+        elif op[0] == "delt":
+          out.append("del d[%r]" % (tuple(KEYS[k] for k in op[1]),))
         else:
           if op[0] == "copycon":
             out.append("d = MultiKeyDict(d)")
@@ -304,6 +316,21 @@ class C15(Property):
         keys = tuple(KEYS[k] for k in op[1])
         self._same_outcome(lambda: d[keys], lambda: m.get_tuple(keys),
                            "getitem-tuple", "d[%r]" % (keys,))
+      elif name == "delt":
+        # a tuple is never a key of the key -> value map: KeyError, and
+        # nothing may change (checked by the observation below)
+        keys = tuple(KEYS[k] for k in op[1])
+        try:
+          del d[keys]
+          raise _Mismatch("model-mismatch", "del-tuple",
+                          "del d[%r] did not raise KeyError" % (keys,))
+        except KeyError:
+          pass
+        except _Mismatch:
+          raise
+        except Exception as exc:
+          raise _Mismatch("unexpected-exception", "del-tuple",
+                          "del d[%r] raised %r" % (keys,  exc))
       elif name == "swap":
         # a second, independent instance is alive at the same time: work
         # continues on the other one, the parked one must not change
@@ -394,7 +421,7 @@ class C15(Property):
                       "%s gave %r, model says %r" % (text, r, e))
 
   def _observe_mkd(self, d, m, after):
-    for k in KEYS:
+    for k in KEYS[:getattr(self, "nobs", NKEYS_NORMAL)]:
       self._same_outcome(lambda: d[k], lambda: m.get(k), "getitem",
                          "d[%r] after %s" % (k, after))
       self._same_outcome(lambda: d.key2keys(k), lambda: m.key2keys(k),
